@@ -176,6 +176,28 @@ func init() {
 		}
 		return nil
 	})
+	// ---- in-memory file table (tools that read and write files by path) ----
+	v("TempPath", func(e *Engine, fn *ssa.Function, a []Value) Value { return "/mem/" + a[0].(string) })
+	v("PutFile", func(e *Engine, fn *ssa.Function, a []Value) Value {
+		s := a[1].(SliceV)
+		mf := &memFile{}
+		for i := 0; i < s.len; i++ {
+			mf.data = append(mf.data, s.arr.e[s.off+i].v.(*Term))
+		}
+		e.files[a[0].(string)] = mf
+		return nil
+	})
+	v("GetFile", func(e *Engine, fn *ssa.Function, a []Value) Value {
+		mf, ok := e.files[a[0].(string)]
+		if !ok {
+			return TupleV{SliceV{}, e.ts.False}
+		}
+		s := e.newSlice(types.Typ[types.Uint8], len(mf.data), len(mf.data), "file")
+		for i, t := range mf.data {
+			s.arr.e[i].v = t
+		}
+		return TupleV{s, e.ts.True}
+	})
 	v("Symbolic", func(e *Engine, fn *ssa.Function, a []Value) Value { return e.ts.True })
 	v("Steps", func(e *Engine, fn *ssa.Function, a []Value) Value { return e.ts.Const(64, uint64(e.p.steps)) })
 
@@ -249,6 +271,61 @@ func init() {
 	intercepts["errors.As"] = func(e *Engine, fn *ssa.Function, a []Value) Value {
 		e.inconclusive("errors.As")
 		return nil
+	}
+
+	// ---- files ----
+	intercepts["os.ReadFile"] = func(e *Engine, fn *ssa.Function, a []Value) Value {
+		name, ok := a[0].(string)
+		if !ok {
+			e.inconclusive("os.ReadFile with symbolic path")
+		}
+		mf, ok := e.files[name]
+		if !ok {
+			return TupleV{SliceV{}, e.makeError("open "+name+": no such file or directory", nil)}
+		}
+		s := e.newSlice(types.Typ[types.Uint8], len(mf.data), len(mf.data), "file")
+		for i, t := range mf.data {
+			s.arr.e[i].v = t
+		}
+		return TupleV{s, IfaceV{}}
+	}
+	intercepts["github.com/Eyevinn/mp4ff/mp4.WriteToFile"] = func(e *Engine, fn *ssa.Function, a []Value) Value {
+		// model of os.Create + Encode + Close: the box structure is encoded (by the interpreted
+		// Encode method) into a bytes.Buffer whose content becomes the file
+		bs, _ := a[0].(IfaceV)
+		name, ok := a[1].(string)
+		if !ok {
+			if ss, isSym := a[1].(*SymStr); isSym && !ss.opaque {
+				e.inconclusive("WriteToFile with symbolic path")
+			}
+			e.inconclusive("WriteToFile with opaque path")
+		}
+		if bs.t == nil {
+			e.programPanic("nil box structure")
+		}
+		bufT := e.L.pkgs["bytes"].Type("Buffer").Type()
+		hdr := e.newHdr("file buffer")
+		cell := &Cell{v: e.zero(bufT, hdr)}
+		w := IfaceV{t: types.NewPointer(bufT), v: Ptr{c: cell, hdr: hdr}}
+		ms := e.L.prog.MethodSets.MethodSet(bs.t)
+		var enc *ssa.Function
+		for i := 0; i < ms.Len(); i++ {
+			if ms.At(i).Obj().Name() == "Encode" {
+				enc = e.L.prog.MethodValue(ms.At(i))
+			}
+		}
+		if enc == nil {
+			panic("WriteToFile: no Encode method on " + bs.t.String())
+		}
+		res := e.call(enc, []Value{bs.v, w}, nil)
+		bv := cell.v.(*StructV).f[0].v.(SliceV) // bytes.Buffer.buf
+		off := int(cell.v.(*StructV).f[1].v.(*Term).val)
+		mf := &memFile{}
+		for i := off; i < bv.len; i++ {
+			mf.data = append(mf.data, bv.arr.e[bv.off+i].v.(*Term))
+		}
+		e.files[name] = mf
+		return res
 	}
 
 	// ---- pure string helpers: native call-through when concrete ----
